@@ -114,7 +114,7 @@ def gen_payload(rng, nonfinite=True):
     if r < 0.02:
         return {"deep": gen_deep(rng)}
     if r < 0.03:
-        return {"long": gen_str(rng, 3) * rng.choice([1000, 30000]), "many": list(range(rng.choice([100, 3000])))}
+        return {"long": as_parsed(gen_str(rng, 3) * rng.choice([1000, 30000])), "many": list(range(rng.choice([100, 3000])))}
     if r < 0.75:
         d = gen_json(rng, rng.choice([1, 2, 3, 4]), None, nonfinite)
         if not isinstance(d, dict):
